@@ -214,11 +214,34 @@ def to_document(ch, coder=None, child_order=None, transitions=None):
     return {'statechart': top}
 
 
+_REPR = [None]
+
+
+def _representer():
+    """strings containing U+0085 are written double-quoted, i.e. escaped (ruamel.yaml would write a line break that its
+    loader folds into a space, see D19)"""
+    if _REPR[0] is None:
+        import ruamel.yaml
+
+        class R(ruamel.yaml.representer.SafeRepresenter):
+            def represent_str(self, data):
+                if '\x85' in data:
+                    return self.represent_scalar('tag:yaml.org,2002:str', data, style='"')
+                return super().represent_str(data)
+        R.add_representer(str, R.represent_str)
+        _REPR[0] = R
+    return _REPR[0]
+
+
 def dump_yaml(doc):
     import io
     import ruamel.yaml
     y = ruamel.yaml.YAML(typ='safe', pure=True)
+    y.Representer = _representer()
     y.default_flow_style = False
+    # the harness's own documents are never folded: ruamel.yaml folds long quoted scalars that contain tabs / runs of spaces
+    # in a way its loader does not invert (see D21) - a document written by the harness must say what the harness means
+    y.width = 2 ** 31
     buf = io.StringIO()
     y.dump(doc, buf)
     return buf.getvalue()
